@@ -595,13 +595,19 @@ func (e *env) tick(ep int64) {
 func (e *env) idOp(add bool, owner []byte, ks [][]byte, alphaClass int) {
 	b := e.b
 	s, aw, sd := e.alphaSigners(alphaClass)
-	args := make([]any, len(ks))
+	// ks == nil is passed as Null (the statement does not say whether that is a refusal or an empty list:
+	// either is accepted, the key sets must stay what they were), an empty slice as an empty array
+	var args any
 	ok := len(owner) == 25
-	for i, k := range ks {
-		args[i] = k
-		if len(k) != 33 {
-			ok = false
+	if ks != nil {
+		a := make([]any, len(ks))
+		for i, k := range ks {
+			a[i] = k
+			if len(k) != 33 {
+				ok = false
+			}
 		}
+		args = a
 	}
 	m := "addKey"
 	if !add {
@@ -609,8 +615,15 @@ func (e *env) idOp(add bool, owner []byte, ks [][]byte, alphaClass int) {
 	}
 	r := e.w.Invoke(s, e.fsid, m, owner, args)
 	b.Tx(1)
-	if (aw && ok) != r.Halted() {
+	switch {
+	case ks == nil && aw && ok:
+		b.Observe(fmt.Sprintf("neofsid.%s with Null instead of a key list: %s", m, r.State))
+		b.Hit("neofsid-null-key-list")
+	case (aw && ok) != r.Halted():
 		b.Violation(fmt.Sprintf("neofsid.%s by %s (well-formed=%v): %s %s", m, sd, ok, r.State, r.Fault), e.detail(r))
+	}
+	if len(ks) == 0 && ks != nil && r.Halted() {
+		b.Hit("neofsid-empty-key-list")
 	}
 	if r.Halted() {
 		if e.idKeys[string(owner)] == nil {
@@ -873,7 +886,16 @@ func runC20(b *runner.Batch) {
 			if r.IntN(3) == 0 {
 				ks = append(ks, runner.Pick(r, e.nodes).PublicKey().Bytes())
 			}
-			if r.IntN(10) == 0 {
+			switch r.IntN(14) {
+			case 0:
+				ks = [][]byte{} // nothing to bind or unbind
+			case 1:
+				ks = nil // Null
+			case 2:
+				ks = append(ks, ks[0]) // the same key twice in one call
+				b.Hit("neofsid-duplicate-key-in-one-call")
+			}
+			if r.IntN(10) == 0 && len(ks) > 0 {
 				ks[0] = ks[0][:32]
 			}
 			o := runner.Pick(r, e.owners)
